@@ -147,6 +147,8 @@ class NumpyModel:
             out = self.apply_imgcorr(interp, o, l, r, node, out)
         if l.taint or r.taint:
             out = out.w(taint=(l.taint or frozenset()) | (r.taint or frozenset()))
+        if (l.rollwrap and has_const(r)) or (r.rollwrap and has_const(l)):
+            out = out.w(rollwrap=l.rollwrap or r.rollwrap)
         return out
 
     def sym_binop(self, o, l, r):
@@ -497,7 +499,7 @@ class NumpyModel:
             lo = cval(idx.lo) if idx.lo is not None and has_const(idx.lo) else (None if idx.lo is None else '?')
             hi = cval(idx.hi) if idx.hi is not None and has_const(idx.hi) else (None if idx.hi is None else '?')
             if lo != '?' and hi != '?' and idx.step is None:
-                return base.w(elts=base.elts[lo:hi], const=None)
+                return base.w(elts=base.elts[lo:hi], const=None, shapeof=None)
         if has_const(base) and has_const(idx):
             try:
                 return const(cval(base)[cval(idx)]).w(deps=d)
@@ -581,7 +583,7 @@ class NumpyModel:
         for it in items:
             if it.ty in ('ndarray', 'list') or it.dtype == 'bool':
                 fancy = True
-        out = base.only('ty', 'geo', 'idx', 'mono', 'prov', 'store', 'cols', 'colvals', 'taint', 'dtype', 'enc')
+        out = base.only('ty', 'geo', 'idx', 'mono', 'prov', 'store', 'cols', 'colvals', 'taint', 'dtype', 'enc', 'origin')
         out = out.w(axes=new_axes, axis=axis_tag, at=None)
         if fancy:
             out = out.w(store='fresh', fresh=True)
@@ -603,7 +605,16 @@ class NumpyModel:
             hi = cval(sl.hi) if sl.hi is not None and has_const(sl.hi) else (0 if sl.hi is None else None)
             if lo is not None and hi is not None and lo >= 0 and hi <= 0 and sl.step is None:
                 out = out.w(symlen=('-', base.symlen, ('c', lo - hi)) if (lo - hi) else base.symlen)
-        # colvals (rows of a stacked table): x[:, k]
+        # dropping the last element of an index array whose last element is the wrap-around pseudo index
+        rw = base.rollwrap
+        if rw and len(items) == 1 and items[0].ty == 'slice':
+            sl = items[0]
+            if rw == 'last' and sl.lo is None and sl.hi is not None and has_const(sl.hi) and cval(sl.hi) == -1:
+                rw = None
+        out = out.w(rollwrap=rw)
+        for it in items:
+            if it.rollwrap:
+                out = out.w(index_may_wrap=(it.at if it.at is not None else 0))
         return out
 
     # ------------------------------------------------------------------ stores
@@ -624,6 +635,15 @@ class NumpyModel:
             if base.alloc in ('zeros', 'zeros_like', 'empty', 'full') and value is not None and not aug:
                 vm = mono_of(value)
                 new = base.w(filled_from=value, filled_at=idx, mono=vm if vm is not None else base.mono)
+                vi = value.idx
+                if vi is not None:
+                    members = vi[1] if vi[0] == 'JOIN' else {vi}
+                    fill = base.fill
+                    nosite = fill is not None and has_const(fill) and cval(fill) == -1
+                    if all(m[0] == 'SITE' or m == ('LOCALSITE',) for m in members):
+                        new = new.w(idx=('SITE', bool(nosite) or any(len(m) > 1 and m[1] for m in members if m[0] == 'SITE')))
+                    elif base.idx is None:
+                        new = new.w(idx=vi)
                 self.rebind(interp, st, frame, tv, new)
             return
         if base.ty == 'dict' and name is not None:
